@@ -232,6 +232,11 @@ def run_channel(ck, prop, extra_overlay=None):
                        "fixture capacity lowered to 1 000 000 sat so msat values fit TLC's 32-bit integers",
                        "AddHTLC constraint rejections (reserve, fee buffer, limits) are not judged; the behaviour ends there",
                        "bolt kvdb backend only"]
+    ndiv = res["out"].count("VERIF-DIVERGED ")
+    if ndiv:
+        ck.notes.append("%d behaviours ended early: a schedule step could not be taken by the real objects" % ndiv)
+        if accepted_all and not ck.violations and not ck.known_hits:
+            raise Inconclusive("%d behaviours could not be replayed to the end, yet every recorded step conforms" % ndiv)
     if accepted_all and not ck.violations:
         negative_control(ck, recs, cfg, prop)
 
